@@ -121,7 +121,7 @@ func evalCDI(c Case, root string) hx.Result {
 		_ = t.Materialise(root, []string{"d0", "d1"})
 		var dirs []string
 		for _, d := range c.DirList {
-			dirs = append(dirs, filepath.Join(root, d))
+			dirs = append(dirs, root+"/"+d) // as spelled (filepath.Join would clean the spelling away)
 		}
 		// library view, with the validator the tool installs
 		cdi.SetSpecValidator(schema.BuiltinSchema())
@@ -408,7 +408,8 @@ func main() {
 		{"inject", "json", "json", "vendor1.com/cls=*", "vendor1.com/cls=x"}, {"inject", "yaml", "yaml", "vendor*/*=x", "vendor*/*=x", "*/*=*"},
 		// the whole pattern syntax of path.Match: escapes (also in a pattern without any wildcard), ranges, negated classes, '?'
 		{"inject", "json", "json", `vendor1.com/cls=\x`}, {"inject", "yaml", "json", `vendor1.com\/cls=y`, `vendor2.org/other=\x`}, {"inject", "json", "yaml", "vendor?.???/*=[x-y]"}, {"inject", "json", "json", "vendor1.com/cls=[^x]"}}
-	dirLists := [][]string{{"d0", "d1"}, {"d1", "d0"}, {"d1"}, {"d0", "missing", "d1"}, {"d0", "d1", "d0"}, {"d1/", "d0", "d1/."}}
+	// the last three lists spell their directories in ways path cleaning changes (trailing slash, dot segments, doubled slashes, a missing one too)
+	dirLists := [][]string{{"d0", "d1"}, {"d1", "d0"}, {"d1"}, {"d0", "missing", "d1"}, {"d0", "d1", "d0"}, {"d1/", "d0", "d1/."}, {"d0//", "d1/./"}, {"./d0/../d0", "missing/", "d1//."}}
 	var cases []Case
 	for i := 0; i < total; i += step {
 		digits := hx.Digits(int64(i), radix)
@@ -421,10 +422,15 @@ func main() {
 			}
 		}
 		for li, dl := range dirLists {
-			if li > 0 && (i/step)%len(dirLists) != li {
+			// lists 1..4 rotate over the populations; the unclean spellings (5..7) go with every population, for the
+			// two subcommands that report files in error
+			if li > 0 && li < 5 && (i/step)%5 != li {
 				continue
 			}
 			for si, sub := range subcommands {
+				if li >= 5 && !(sub[0] == "devices" && len(sub) == 1) && sub[0] != "validate" {
+					continue
+				}
 				spell := "comma"
 				if si == 0 {
 					for _, sp := range []string{"repeated", "long-equals"} {
